@@ -51,7 +51,7 @@ KNOWN_CE = ("none", "identity", "gzip", "deflate", "deflateraw", "br", "zstd")
 HOSTS = ["example.com", "a.example.org", "10.0.0.1", "localhost", "sub.domain.example.net"]
 ODD_HOSTS = ["xn--bcher-kva.example", "EXAMPLE.com"]
 PATHS = [b"/", b"/index.html", b"/a/b?x=1&y=2", b"/p;k=v?q=1", b"/search?q=a%20b", b"/x#frag", b"/%E2%82%AC", b"/a//b/", b"/~u/", b"/a?b=c#d"]
-BAD_PATHS = [b"/\xc3\xa9", b"/\xff", b"/a b", b"/\x7f", b"/?", b"/a?", b"/?#f"]
+BAD_PATHS = [b"/\xc3\xa9", b"/\xff", b"/a b", b"/\x7f", b"/?", b"/a?", b"/?#f", b"/a;", b"/a;?x=1", b"/a#", b"/a;p?#", b"/x;/y;"]
 CT_TEXT = [b"text/plain", b"text/plain; charset=utf-8", b"text/plain;charset=UTF-8", b"application/json", b"text/html; charset=utf-8",
            b"application/x-www-form-urlencoded", b"application/javascript", b"text/plain; charset=latin-1", b"text/html; charset=iso-8859-1",
            b"application/octet-stream", b"image/png", b"multipart/form-data; boundary=xx", b"text/html", b"text/css", b"text/xml", b"application/xml",
@@ -780,9 +780,11 @@ def _ref_pretty_url(f):
 
 
 def _ref_normalise_url(u: str) -> str:
-    """reference description of what re-parsing does to a non-canonical URL: host lower-cased and IDNA-decoded, an empty
-    query dropped, an empty path replaced by a slash, TAB/CR/LF removed"""
-    for ch in "\t\r\n":       # urllib.parse.urlsplit removes these anywhere in the URL
+    """independent characterisation of what re-parsing a URL (RFC 3986 split into scheme, authority, path, ;params of the last
+    segment, ?query, #fragment, then re-assembly of the non-empty parts) normalises: TAB/CR/LF removed anywhere; host
+    lower-cased and IDNA-decoded; a default port dropped; an empty path replaced by a slash; the delimiter of an EMPTY params,
+    query or fragment part dropped.  Nothing else may change."""
+    for ch in "\t\r\n":
         u = u.replace(ch, "")
     scheme, sep, rest = u.partition("://")
     cut = len(rest)
@@ -791,18 +793,29 @@ def _ref_normalise_url(u: str) -> str:
         if k != -1:
             cut = min(cut, k)
     auth, tail = rest[:cut], rest[cut:]
-    host, colon, port = auth.partition(":") if not auth.startswith("[") else (auth, "", "")
+    if auth.startswith("["):
+        close = auth.find("]")
+        host, portpart = auth[:close + 1], auth[close + 1:]
+    else:
+        host, c, p = auth.partition(":")
+        portpart = c + p
     host = host.lower()
     try:
         host = host.encode("ascii").decode("idna")
     except ValueError:
         pass
-    if not tail.startswith("/"):
-        tail = "/" + tail
-    path, h, frag = tail.partition("#")
-    if path.endswith("?"):
-        path = path[:-1]
-    return scheme + sep + host + colon + port + path + h + frag
+    if portpart[1:].isdigit() and int(portpart[1:]) == {"http": 80, "https": 443}.get(scheme.lower()):
+        portpart = ""
+    before_frag, _, frag = tail.partition("#")
+    path, _, query = before_frag.partition("?")
+    k = path.find(";", path.rfind("/") + 1)
+    params = ""
+    if k != -1:
+        path, params = path[:k], path[k + 1:]
+    if not path.startswith("/"):
+        path = "/" + path
+    return (scheme + sep + host + portpart + path + (";" + params if params else "") + ("?" + query if query else "")
+            + ("#" + frag if frag else ""))
 
 
 def _lower(h):
